@@ -171,6 +171,49 @@ func (d *driver) runCommitCase(w emitter, k int, c *commitCase) {
 		for i := 0; i < c.Cnt; i++ {
 			d.commitEvent(w, k, "vec/"+c.Vec, vecClass(c.Vec, c.N, p), i == 0)
 		}
+	case "reuse":
+		// ONE slice, committed again and again after being changed in place (a node's values being updated): the result must be
+		// that of the current contents (no result may be remembered by slice identity)
+		v := vecClass([]string{"rnd", "small", "hot"}[c.Cnt%3], c.N, p).dense()
+		emit := func() {
+			before := append([]fr.Element(nil), v...)
+			cm := cfg.Commit(v)
+			idx, vals := []int{}, [][]int{}
+			for i := range v {
+				if !v[i].IsZero() {
+					idx = append(idx, i)
+					vals = append(vals, frReg(&v[i]))
+				}
+			}
+			same := true
+			for i := range v {
+				if v[i] != before[i] {
+					same = false
+				}
+			}
+			b := cm.Bytes()
+			w.emit(ev{"ev": "commit", "k": k, "cls": "reuse", "n": len(v), "idx": idx, "vals": vals, "out": coords(&cm), "input_unchanged": same, "bytes": bytesToInts(b[:])})
+		}
+		emit()
+		one := fr.One()
+		for step := 0; step < 4 && len(v) > 0; step++ {
+			j := p.intn(len(v))
+			switch step {
+			case 0:
+				v[j].Add(&v[j], &one)
+			case 1:
+				v[j].SetZero()
+				v[len(v)-1].Add(&v[len(v)-1], &one)
+			case 2:
+				v[j] = frFromBig(new(big.Int).Sub(modR, big.NewInt(1)))
+			default:
+				for i := range v {
+					v[i].SetZero()
+				}
+				v[j] = p.fr()
+			}
+			emit()
+		}
 	case "lin":
 		// Commit(a), Commit(b), Commit(a+b), Commit(k*a), single-coefficient update
 		n := c.N
